@@ -364,7 +364,7 @@ def check_nesting(ctx, F, rule="R-GUARD"):
            what="write_string writes balanced parentheses raw to any depth, but the reader cuts literal-string nesting off at MAX_BRACKET = %d: a string with deeper balanced parentheses cannot be read back" % limit)
     # reader side: depth starts at MAX_BRACKET
     ls = F.fn("parser::literal_string")
-    starts = [c for c in ls.calls if c.local and c.name.endswith("inner_literal_string")]
+    starts = [c for c in ls.calls if c.local and c.cname.endswith("inner_literal_string")]
     oks = len(starts) == 1 and "MAX_BRACKET" in ls.oname(starts[0].args[0], 3) or (len(starts) == 1 and ls.oname(starts[0].args[0], 3) == str(limit))
     ctx.ob(rule, "strings|reader-depth-start", oks, "literal_string starts inner_literal_string at MAX_BRACKET", ls.where(),
            what="parser::literal_string no longer starts the nesting counter at MAX_BRACKET")
@@ -373,8 +373,13 @@ def check_nesting(ctx, F, rule="R-GUARD"):
 # ----------------------------------------------------------------------------- hex strings, numbers, references
 
 def fmt_sites_of(F, fn):
+    """format_args! sites of a function and of the closures defined in it (a loop turned into an iterator adaptor moves
+    its body into a closure)."""
     b = F.fn(fn)
-    return b, lib.format_sites(b)
+    out = []
+    for body in F.with_closures(b):
+        out.extend(lib.format_sites(body))
+    return b, out
 
 
 def check_hex_and_numbers(ctx, F, rule="R-TABLE"):
@@ -448,8 +453,8 @@ def check_separators(ctx, F, rule="R-TABLE"):
     # every back-to-back writer consults it
     for fn in ("Writer::write_array", "Writer::write_dictionary"):
         wb = F.fn(fn)
-        ns = [c for c in wb.calls if c.local and c.name.endswith("need_separator")]
-        wo = [c for c in wb.calls if c.local and c.name.endswith("write_object")]
+        ns = [c for c in wb.calls if c.local and c.cname.endswith("need_separator")]
+        wo = [c for c in wb.calls if c.local and c.cname.endswith("write_object")]
         sp = [c for c in lib.calls_named(wb, r"io::Write::write_all$") if lib._const_bytes_through(wb, c.args[1]) == b" "]
         ok = bool(ns) and bool(wo) and bool(sp)
         how = ""
@@ -469,7 +474,7 @@ def check_separators(ctx, F, rule="R-TABLE"):
                what="%s writes consecutive values without consulting need_separator for the value it is about to write" % fn)
     # write_indirect_object: separator after `obj\n` and before endobj
     wi = F.fn("Writer::write_indirect_object")
-    ns = [c for c in wi.calls if c.local and c.name.endswith("need_separator")]
+    ns = [c for c in wi.calls if c.local and c.cname.endswith("need_separator")]
     ctx.ob(rule, "separators|indirect-object", len(ns) == 1, "write_indirect_object consults need_separator", wi.where(), what="write_indirect_object no longer consults need_separator")
 
 
